@@ -57,6 +57,9 @@ type amapIter struct {
 	i    int
 }
 type amapData struct {
+	// open: keys for which absence is not known (the map may contain entries the case does not model); a lookup of
+	// such a key is outside the abstraction and is explored both ways
+	open func(key string) bool
 	vals map[string]aval
 	keys map[string]aval
 	typ  *types.Map
@@ -797,7 +800,11 @@ func strLen(s aval) (int64, bool) {
 func (e *absEnv) instrStr(fr *absFrame, in ssa.Instruction) bool {
 	switch t := in.(type) {
 	case *ssa.MakeMap:
-		fr.regs[t] = amap{&amapData{vals: map[string]aval{}, keys: map[string]aval{}, typ: underlying(t.Type()).(*types.Map)}}
+		md := &amapData{vals: map[string]aval{}, keys: map[string]aval{}, typ: underlying(t.Type()).(*types.Map)}
+		if e.newMapOpen != nil && strings.HasSuffix(t.Type().String(), "net/http.Header") {
+			md.open = e.newMapOpen // a header map made here is filled from the request's: it may hold what that one may hold
+		}
+		fr.regs[t] = amap{md}
 		return true
 	case *ssa.MapUpdate:
 		m, ok := e.val(fr, t.Map).(amap)
@@ -1088,6 +1095,9 @@ func (e *absEnv) stdCall(fr *absFrame, name string, args []aval, depth int) (ava
 			return nil, false
 		}
 		cur, present := m.m.vals[k]
+		if !present && m.m.open != nil && m.m.open(k) && (strings.HasSuffix(base, "Get") || strings.HasSuffix(base, "Values")) {
+			return aunk{"header " + k + " of a request that may carry headers the case does not model"}, true
+		}
 		switch {
 		case strings.HasSuffix(base, "Get"):
 			if sl, ok := cur.(avals); ok && present && len(sl.cells) > 0 {
